@@ -16,6 +16,9 @@ pub struct Case {
     pub walk: Vec<Step>,
     /// seeds for the sequence clause (one per visited state, cycled)
     pub seq: Vec<(u16, u16, u16)>,
+    /// build the engine with the default token slices (what every real deployment does)
+    #[serde(default)]
+    pub slices: bool,
 }
 
 pub struct C01;
@@ -285,10 +288,14 @@ impl Prop for C01 {
         tier.pick(30, 360)
     }
     fn strategy(&self, tier: Tier) -> BoxedStrategy<Case> {
-        crate::gen::any_grammar_core_ext()
-            .prop_flat_map(move |g| (Just(g.clone()), vocab_for(g, tier), steps(40), proptest::collection::vec(any::<(u16, u16, u16)>(), 1..8)))
-            .prop_map(|(g, vocab, walk, seq)| Case { g, vocab, walk, seq })
-            .boxed()
+        // lazy next to greedy lexemes matter for the slicer; they are part of the core fragment
+        let g = prop_oneof![8 => crate::gen::any_grammar_core_ext(), 1 => crate::props::c02::string_heavy_grammar()];
+        g.prop_flat_map(move |g| {
+            let voc = prop_oneof![4 => vocab_for(g.clone(), tier), 1 => crate::props::c02::slice_rich_vocab()];
+            (Just(g), voc, steps(40), proptest::collection::vec(any::<(u16, u16, u16)>(), 1..8), proptest::bool::weighted(0.4))
+        })
+        .prop_map(|(g, vocab, walk, seq, slices)| Case { g, vocab, walk, seq, slices })
+        .boxed()
     }
 
     fn run(&self, case: &Case, ctx: &mut Ctx) -> R {
@@ -296,7 +303,15 @@ impl Prop for C01 {
             Ok(v) => v,
             Err(_) => return Ok(()),
         };
-        let f = factory(&vocab);
+        let f = if case.slices {
+            ctx.class("engine_with_default_slices");
+            match crate::engine::factory_ext(&vocab, &llguidance::earley::SlicedBiasComputer::general_slices(), llguidance::toktrie::InferenceCapabilities::default(), None) {
+                Ok(f) => f,
+                Err(_) => return Ok(()),
+            }
+        } else {
+            factory(&vocab)
+        };
         let mut m = matcher(&f, &case.g);
         if m.is_error() {
             ctx.class("compile_error");
